@@ -243,13 +243,44 @@ def invGenNext (g : List (SessKey × Nat)) (k : SessKey) : Nat × List (SessKey 
   | some p => (p.2 + 1, g.map (fun q => if q.1 == k then (k, p.2 + 1) else q))
   | none => (1, g ++ [(k, 1)])
 
+/-! ### CANCEL -/
+
+/-- `syncCancel` -/
+def syncCancel (env : DEnv) (s : DState) (caller : SessKey) (req : Nat) (mode reason : String)
+    (errArgs : List WVal) : DOut :=
+  let callId : ReqId := ⟨caller, req⟩
+  if !s.d.calls.contains callId then { st := s } else
+  match s.d.byCall? callId with
+  | none => { st := s }
+  | some iid =>
+  match s.d.findInv iid with
+  | none => { st := s }
+  | some invk =>
+  if invk.canceled then { st := s } else
+  let s := { s with d := s.d.setInv { invk with canceled := true } }
+  let s := s.cancelTimer invk.timer
+  let canInterrupt := mode != CancelModeSkip && hasFeat env invk.callee RoleCallee FeatureCallCanceling
+  let sent := canInterrupt && !env.full invk.callee
+  let intr : List Send :=
+    if sent then [⟨invk.callee, .interrupt iid.req [(OptReason, .str reason), (OptMode, .str mode)]⟩] else []
+  if sent && mode == CancelModeKill then
+    { st := s, sends := intr }
+  else
+    { st := { s with d := s.d.forget callId iid }
+      sends := intr ++ [⟨caller, .error tCALL req [] reason errArgs []⟩] }
+
 /-- `syncCall` -/
 def syncCall (env : DEnv) (s : DState) (caller : SessKey) (req : Nat) (opts : Dict) (proc : String)
     (args : List WVal) (kw : Dict) (rnd : Nat) : DOut :=
+  let noProc : DOut :=
+    -- a later chunk of a pending progressive call ends that call (once: `syncCancel`)
+    if (s.d.byCall? ⟨caller, req⟩).isSome then
+      syncCancel env s caller req CancelModeKillNoWait ErrNoSuchProcedure []
+    else { st := s, sends := [⟨caller, errMsg tCALL req ErrNoSuchProcedure⟩] }
   match s.d.matchProcedure proc with
-  | none => { st := s, sends := [⟨caller, errMsg tCALL req ErrNoSuchProcedure⟩] }
+  | none => noProc
   | some reg =>
-  if reg.callees.isEmpty then { st := s, sends := [⟨caller, errMsg tCALL req ErrNoSuchProcedure⟩] } else
+  if reg.callees.isEmpty then noProc else
   let callId : ReqId := ⟨caller, req⟩
   let inProgress := opts.optFlag OptProgress
   let details0 : Dict := [(OptProgress, .bool inProgress)]
@@ -336,32 +367,6 @@ def syncCall (env : DEnv) (s : DState) (caller : SessKey) (req : Nat) (opts : Di
                  d := s.d.setInv { invk with timer := some tid } }
       else s
     { st := s, sends := [⟨callee, .invocation iid.req reg.id details0 args kw⟩] }
-
-/-! ### CANCEL -/
-
-/-- `syncCancel` -/
-def syncCancel (env : DEnv) (s : DState) (caller : SessKey) (req : Nat) (mode reason : String)
-    (errArgs : List WVal) : DOut :=
-  let callId : ReqId := ⟨caller, req⟩
-  if !s.d.calls.contains callId then { st := s } else
-  match s.d.byCall? callId with
-  | none => { st := s }
-  | some iid =>
-  match s.d.findInv iid with
-  | none => { st := s }
-  | some invk =>
-  if invk.canceled then { st := s } else
-  let s := { s with d := s.d.setInv { invk with canceled := true } }
-  let s := s.cancelTimer invk.timer
-  let canInterrupt := mode != CancelModeSkip && hasFeat env invk.callee RoleCallee FeatureCallCanceling
-  let sent := canInterrupt && !env.full invk.callee
-  let intr : List Send :=
-    if sent then [⟨invk.callee, .interrupt iid.req [(OptReason, .str reason), (OptMode, .str mode)]⟩] else []
-  if sent && mode == CancelModeKill then
-    { st := s, sends := intr }
-  else
-    { st := { s with d := s.d.forget callId iid }
-      sends := intr ++ [⟨caller, .error tCALL req [] reason errArgs []⟩] }
 
 /-! ### YIELD -/
 
